@@ -222,6 +222,8 @@ func (e *Expr) CompileExpr(terms ast.Expr, env0 *types.Env) compiler.Closure {
 
 func (e *Expr) makeCallable(closure compiler.Closure, env0 *types.Env) Callable {
 	return func(v interface{}) (vl *val.Val, err error) {
+		// 运行时错误(下标越界, key 不存在, 除零 ...) 通过 error 返回, 不向调用方 panic
+		defer e.backStrace("eval", &err)
 		env1, ok := v.(*val.Env)
 		if !ok {
 			env1, err = conv.ValEnvOf(v)
